@@ -5,6 +5,7 @@ import (
 	"go/token"
 	"go/types"
 	"sort"
+	"strings"
 
 	"golang.org/x/tools/go/ssa"
 )
@@ -590,6 +591,32 @@ func c07R3(c *Check, sr *serverRoles) {
 			c.Obl(after, "C07.R3", fmt.Sprintf("not-triggered-after-all-rules#%d", i+1), P.Pos(instrPos(r)),
 				"`return false` lies behind the exhaustion of the rule loop", "`return false` is reachable before every rule has been consulted: one rule (or a pre-check) vetoes the disjunction over rules")
 		}
+	}
+
+	// the decision is a function of (rules, path): the trigger functions consult no package-level variable and no
+	// sync.Map (a memo of earlier verdicts makes the decision for a path depend on earlier requests)
+	nState := 0
+	for _, tf := range deepFuncs(fn, 3) {
+		if pkgPathOf(tf) != pkgServer {
+			continue
+		}
+		for _, b := range tf.Blocks {
+			for _, ins := range b.Instrs {
+				for _, op := range ins.Operands(nil) {
+					if g, isG := (*op).(*ssa.Global); isG && g.Pkg != nil && isOwnPath(g.Pkg.Pkg.Path()) && !isErrorType(derefType(g.Type())) {
+						nState++
+						c.Fail("C07.R3", fmt.Sprintf("stateless/%s/%s", fnKey(tf), g.Name()), P.Pos(instrPos(ins)), "the trigger decision reads or writes the package-level variable "+g.Name()+" in "+fnKey(tf)+": the decision for a path can depend on earlier requests")
+					}
+				}
+				if ci, isC := ins.(ssa.CallInstruction); isC && strings.HasPrefix(funcID(calleeOf(ci).Obj), "sync.Map.") {
+					nState++
+					c.Fail("C07.R3", fmt.Sprintf("stateless/%s/sync.Map#%d", fnKey(tf), nState), P.Pos(ci.Pos()), "the trigger decision uses a sync.Map in "+fnKey(tf)+": the decision for a path can depend on earlier requests")
+				}
+			}
+		}
+	}
+	if nState == 0 {
+		c.Pass("C07.R3", "stateless", P.Pos(fn.Pos()), "the trigger functions consult no package-level state")
 	}
 
 	// ---- rule matcher
